@@ -230,25 +230,31 @@ var pluginName = map[string]string{"native": "mysql_native_password", "sha2": "c
 
 // configure replaces every account except root by the accounts of the case, through SQL.
 func (c *childProc) configure(accts []Acct) error {
-	rows, err := c.admin.Query("SELECT user, host FROM mysql.user")
-	if err != nil {
-		return err
-	}
-	var drop [][2]string
-	for rows.Next() {
-		var u, h string
-		if err := rows.Scan(&u, &h); err != nil {
+	// DROP USER resolves its operand the way a connecting client is matched (GetUser), so
+	// DROP USER 'alice'@'127.0.0.1' may remove 'alice'@'127.0.0.%' instead: drop until none is left.
+	for round := 0; ; round++ {
+		rows, err := c.admin.Query("SELECT user, host FROM mysql.user")
+		if err != nil {
 			return err
 		}
-		if !(u == "root" && h == "localhost") {
-			drop = append(drop, [2]string{u, h})
+		var drop [][2]string
+		for rows.Next() {
+			var u, h string
+			if err := rows.Scan(&u, &h); err != nil {
+				return err
+			}
+			if !(u == "root" && h == "localhost") {
+				drop = append(drop, [2]string{u, h})
+			}
 		}
-	}
-	rows.Close()
-	for _, d := range drop {
-		if _, err := c.admin.Exec("DROP USER " + q(d[0]) + "@" + q(d[1])); err != nil {
-			return fmt.Errorf("drop %v: %w", d, err)
+		rows.Close()
+		if len(drop) == 0 {
+			break
 		}
+		if round > 20 {
+			return fmt.Errorf("cannot drop %v", drop)
+		}
+		c.admin.Exec("DROP USER " + q(drop[0][0]) + "@" + q(drop[0][1]))
 	}
 	for _, a := range accts {
 		st := "CREATE USER " + q(a.User) + "@" + q(a.Host) + " IDENTIFIED WITH " + pluginName[a.Plugin]
@@ -502,8 +508,25 @@ func authDriver(file, out string, seed int64) {
 		} else {
 			o = rawAttempt(ch.addr, att, rng)
 		}
+		// a recovered panic of the connection goroutine is logged by the listener; anything else that is
+		// neither OK nor ERR gets a moment for the process to turn out dead
+		recovered := false
+		if o.O == "dropped" {
+			if b, err := os.ReadFile(ch.logf); err == nil && logBefore != nil && int64(len(b)) > logBefore.Size() {
+				nb := b[logBefore.Size():]
+				if k := bytes.Index(nb, []byte("caught panic")); k >= 0 {
+					recovered = true
+					panics++
+					e := k + 200
+					if e > len(nb) {
+						e = len(nb)
+					}
+					o.Note = "server log: " + string(nb[k:e])
+				}
+			}
+		}
 		wait := time.Duration(0)
-		if o.O != "accept" && o.O != "reject" {
+		if o.O != "accept" && o.O != "reject" && !recovered {
 			wait = 300 * time.Millisecond
 		}
 		if ch.isDead(wait) {
@@ -513,19 +536,6 @@ func authDriver(file, out string, seed int64) {
 			ch = startChild(dir, nchild)
 			if err := ch.configure(accts); err != nil {
 				vio.Fatal("configure after crash: %v", err)
-			}
-		} else if o.O == "dropped" {
-			// the listener recovers panics of its connection goroutine and logs them
-			if b, err := os.ReadFile(ch.logf); err == nil && logBefore != nil && int64(len(b)) > logBefore.Size() &&
-				bytes.Contains(b[logBefore.Size():], []byte("caught panic")) {
-				panics++
-				nb := b[logBefore.Size():]
-				k := bytes.Index(nb, []byte("caught panic"))
-				e := k + 200
-				if e > len(nb) {
-					e = len(nb)
-				}
-				o.Note = "server log: " + string(nb[k:e])
 			}
 		}
 		byOut[o.O]++
